@@ -127,3 +127,23 @@ Print Assumptions C13_build_braces_full.
 Print Assumptions C13_thresholds_deep.
 Print Assumptions C13_raise_thresholds.
 Print Assumptions C13_threshold_order.
+
+(* NON-VACUITY (Proofs/NonVacuity.v, world W8): C13_build_braces applied to
+   ["ab ab ab 12","é_"] with repetition conversion, thresholds 2/2, classes and escaping: the
+   output ^(?:(?:\w\w\s){3}\d\d|\w\w)$ parses, and its counted repetition {3} has 3 > 2 and a
+   body of minimal match length 3 >= 2 (while \d\d, a repetition of length 1 < 2, stays literal). *)
+From Grex Require Proofs.NonVacuity.
+Theorem C13_nonvacuous : exists e s,
+  NonVacuity.world_ok NonVacuity.c_W8 NonVacuity.db_W8 SCPass1 NonVacuity.ws_W8 true e s
+  /\ exists r, parse NonVacuity.is_ws_std s = Some (mkF false false, r)
+       /\ (forall body lo hi, rast_sub (RRep body lo (Some hi)) r -> lo <> 0%N ->
+             (2 < hi)%N /\ 2 <= min_len_rast body).
+Proof.
+  pose proof NonVacuity.W8 as W. do 2 eexists. split; [exact W|].
+  destruct (C13_build_braces NonVacuity.isd NonVacuity.is_ws_std _ _ _ _ _
+              (NonVacuity.w_nonempty _ _ _ _ _ _ _ W) (NonVacuity.w_scalar _ _ _ _ _ _ _ W) NonVacuity.W8_lower_scalar
+              (NonVacuity.w_oracle _ _ _ _ _ _ _ W) NonVacuity.W8_printable NonVacuity.ws_ok_std
+              (NonVacuity.w_build _ _ _ _ _ _ _ W)) as (r & P & A & _).
+  exists r. split; [exact P|]. intros body lo hi Hs Hlo. destruct (A body lo hi Hs Hlo) as (_ & B & C). split; assumption.
+Qed.
+Print Assumptions C13_nonvacuous.
